@@ -8,7 +8,7 @@
 //       subst rand noncanon hostile mapdup bigvalid
 // observables:
 //   ok <value text> <consumed bytes, hex> <s|L>   |   err <s|L>   |   panic
-//       s|L: runtime.MemStats.TotalAlloc grew by at most / by more than 1 MiB + 2048 * len(input)
+//       s|L: runtime.MemStats.TotalAlloc grew by at most / by more than 256 KiB + 2048 * len(input)
 //       during the decode ("allocates much more memory than the input could describe" = L)
 package scale
 
@@ -61,8 +61,185 @@ func c12NonCanonical(r *vu.RNG, n uint64) []byte {
 }
 
 func c12Emit(emit func(string), kind, d string, b []byte) {
+	if c12MaxDeclared(svuParseTy(d), b) > 1<<20 {
+		return
+	}
 	emit("dec " + kind + " " + d + " " + vu.Hex(b))
 }
+// c12MaxDeclared walks the input the way the decoder does (short reads taken as zero-filled, the
+// superset of both trees) and returns the largest byte-string length the input declares.  The
+// generator drops inputs declaring more than 1 MiB: decodeBytes really allocates (and clears)
+// the declared length, up to 4 GiB per case.
+type c12Walk struct {
+	data []byte
+	pos  int
+	max  uint64
+	stop bool
+}
+
+func (w *c12Walk) read(k int) []byte {
+	buf := make([]byte, k)
+	if k == 0 {
+		return buf
+	}
+	if w.pos >= len(w.data) {
+		w.stop = true
+		return buf
+	}
+	n := copy(buf, w.data[w.pos:])
+	w.pos += n
+	return buf
+}
+
+func (w *c12Walk) compact(bigOK bool) uint64 {
+	p := w.read(1)
+	if w.stop {
+		return 0
+	}
+	le := func(b []byte) uint64 {
+		var v uint64
+		for i := len(b) - 1; i >= 0; i-- {
+			v = v<<8 | uint64(b[i])
+		}
+		return v
+	}
+	switch p[0] & 3 {
+	case 0:
+		return uint64(p[0] >> 2)
+	case 1:
+		b := w.read(1)
+		return (uint64(p[0]) | uint64(b[0])<<8) >> 2
+	case 2:
+		b := w.read(3)
+		return (uint64(p[0]) | le(b)<<8) >> 2
+	}
+	k := int(p[0]>>2) + 4
+	b := w.read(k)
+	if k > 8 {
+		if !bigOK {
+			w.stop = true
+		}
+		return 0
+	}
+	return le(b)
+}
+
+func (w *c12Walk) walk(t *svuTy) {
+	if w.stop {
+		return
+	}
+	switch t.kind {
+	case svuPrim:
+		switch t.prim {
+		case "u8", "i8", "bool":
+			w.read(1)
+		case "u16", "i16":
+			w.read(2)
+		case "u32", "i32":
+			w.read(4)
+		case "u64", "i64":
+			w.read(8)
+		case "u128":
+			w.read(16)
+		case "uint", "int":
+			w.compact(false)
+		case "big":
+			w.compact(true)
+		default: // bytes, str
+			l := w.compact(false)
+			if w.stop || l > 1<<32-1 {
+				w.stop = true
+				return
+			}
+			if l > w.max {
+				w.max = l
+			}
+			if l > uint64(len(w.data)-w.pos) {
+				if l > 0 && w.pos >= len(w.data) {
+					w.stop = true
+				}
+				w.pos = len(w.data)
+			} else {
+				w.pos += int(l)
+			}
+		}
+	case svuOpt:
+		b := w.read(1)
+		if !w.stop && b[0] == 1 {
+			w.walk(t.a)
+		} else if b[0] != 0 {
+			w.stop = true
+		}
+	case svuRes:
+		b := w.read(1)
+		if w.stop {
+			return
+		}
+		switch b[0] {
+		case 0:
+			w.walk(t.a)
+		case 1:
+			w.walk(t.b)
+		default:
+			w.stop = true
+		}
+	case svuEnum:
+		b := w.read(1)
+		if w.stop {
+			return
+		}
+		for i, ix := range t.idx {
+			if ix == uint(b[0]) {
+				w.walk(t.fs[i])
+				return
+			}
+		}
+		w.stop = true
+	case svuArr:
+		for i := 0; i < t.n && !w.stop; i++ {
+			w.walk(t.a)
+		}
+	case svuSl:
+		n := w.compact(false)
+		for i := uint64(0); i < n && !w.stop; i++ {
+			w.walk(t.a)
+		}
+	case svuMap:
+		n := w.compact(false)
+		for i := uint64(0); i < n && !w.stop; i++ {
+			w.walk(t.a)
+			w.walk(t.b)
+		}
+	case svuSt:
+		// wire order: tagged fields by ascending tag, then the untagged ones
+		done := make([]bool, len(t.fs))
+		for {
+			best := -1
+			for i, tg := range t.tags {
+				if !done[i] && tg >= 0 && (best < 0 || tg < t.tags[best]) {
+					best = i
+				}
+			}
+			if best < 0 {
+				break
+			}
+			done[best] = true
+			w.walk(t.fs[best])
+		}
+		for i, tg := range t.tags {
+			if tg < 0 {
+				w.walk(t.fs[i])
+			}
+		}
+	}
+}
+
+func c12MaxDeclared(t *svuTy, data []byte) uint64 {
+	w := &c12Walk{data: data}
+	w.walk(t)
+	return w.max
+}
+
 
 func c12Gen(r *vu.RNG, n int, emit func(string)) {
 	// fixed corpus: the confirmed defects of the pinned tree and boundary cases
@@ -83,11 +260,11 @@ func c12Gen(r *vu.RNG, n int, emit func(string)) {
 	c12Emit(emit, "noncanon", "uint", []byte{0x03, 0x01, 0x00, 0x00, 0x00})
 	c12Emit(emit, "noncanon", "uint", []byte{0x13, 1, 0, 0, 0, 0, 0, 0, 0})
 	c12Emit(emit, "valid", "uint", []byte{0x07, 0, 0, 0, 0, 1})
-	c12Emit(emit, "hostile", "bytes", []byte{0x02, 0x00, 0x80, 0x00, 0x41})             // 2 MiB declared
-	c12Emit(emit, "hostile", "str", []byte{0x03, 0x00, 0x00, 0x00, 0x01, 0x41})          // 16 MiB declared
-	c12Emit(emit, "hostile", "sl(bytes)", []byte{0x04, 0x02, 0x00, 0x00, 0x01, 0x41})    // 4 MiB declared
+	c12Emit(emit, "hostile", "bytes", []byte{0x02, 0x00, 0x20, 0x00, 0x41})             // 512 KiB declared
+	c12Emit(emit, "hostile", "str", []byte{0x02, 0x00, 0x40, 0x00, 0x41})               // 1 MiB declared
+	c12Emit(emit, "hostile", "sl(bytes)", []byte{0x04, 0x02, 0x00, 0x30, 0x00, 0x41})   // 768 KiB declared
 	c12Emit(emit, "hostile", "sl(u16)", []byte{0x03, 0xff, 0xff, 0xff, 0xff, 0x41})      // 4 Gi elements declared
-	c12Emit(emit, "hostile", "sl(u8)", []byte{0x03, 0x00, 0x00, 0x00, 0x02, 0x41})       // []byte: 32 MiB declared
+	c12Emit(emit, "hostile", "sl(nm(u8))", []byte{0x02, 0x00, 0x28, 0x00, 0x41})             // []byte: 640 KiB declared
 	c12Emit(emit, "hostile", "sl(u64)", []byte{0x13, 0xff, 0xff, 0xff, 0xff, 0xff, 0xff, 0xff, 0xff, 0x41})
 	c12Emit(emit, "hostile", "map(u8,u8)", []byte{0x03, 0xff, 0xff, 0xff, 0xff, 1, 2})
 	c12Emit(emit, "mapdup", "map(u8,u8)", []byte{0x04, 1, 2})
@@ -141,7 +318,11 @@ func c12Gen(r *vu.RNG, n int, emit func(string)) {
 				continue
 			}
 		}
-		switch r.Intn(12) {
+		sel := r.Intn(24)
+		if sel == 21 {
+			sel = 4 // hostile lengths are expensive to replay on the model: 1 in 24
+		}
+		switch sel / 2 {
 		case 0:
 			c12Emit(emit, "valid", d, enc)
 		case 1:
@@ -182,11 +363,8 @@ func c12Gen(r *vu.RNG, n int, emit func(string)) {
 				c12Emit(emit, "noncanon", d, append(c12NonCanonical(r, x), r.Bytes(r.Intn(8))...))
 			}
 		case 10: // hostile length prefix: a huge declared length and a few bytes
-			// (byte strings: at most 64 MiB, the pinned decodeBytes really allocates it)
-			l := uint64(2<<20 + r.Intn(1<<20))
-			if r.Chance(1, 2) {
-				l = uint64(8<<20 + r.Intn(56<<20))
-			}
+			// (declared byte-string lengths between 512 KiB and 1 MiB: decodeBytes really allocates them)
+			l := uint64(512<<10 + r.Intn(512<<10))
 			bytesLike := t.kind == svuPrim && (t.prim == "bytes" || t.prim == "str") ||
 				t.kind == svuSl && t.a.kind == svuPrim && t.a.prim == "u8" && !t.a.named
 			if (t.kind == svuSl || t.kind == svuMap) && !bytesLike && r.Chance(1, 2) {
@@ -228,6 +406,14 @@ func c11HasNilVDTOption(t *svuTy, v reflect.Value) bool {
 	return strings.Contains(svuRender(t, v), "N") && strings.Contains(fmt.Sprint(t.gt), "svuVDT")
 }
 
+// cumulative bytes allocated on the heap; ReadMemStats flushes the per-P caches first, so the
+// difference around a call is exact
+func c12AllocBytes() uint64 {
+	var ms runtime.MemStats
+	runtime.ReadMemStats(&ms)
+	return ms.TotalAlloc
+}
+
 func c12Run(in string) string {
 	f := strings.Split(in, " ")
 	if len(f) != 4 || f[0] != "dec" {
@@ -239,12 +425,11 @@ func c12Run(in string) string {
 	dst.Elem().Set(svuFresh(t))
 	buf := bytes.NewBuffer(data)
 	dec := NewDecoder(buf)
-	var ms, me runtime.MemStats
-	runtime.ReadMemStats(&ms)
+	before := c12AllocBytes()
 	err := dec.Decode(dst.Interface())
-	runtime.ReadMemStats(&me)
+	after := c12AllocBytes()
 	bucket := "s"
-	if me.TotalAlloc-ms.TotalAlloc > 1<<20+2048*uint64(len(data)) {
+	if after-before > 256<<10+2048*uint64(len(data)) {
 		bucket = "L"
 	}
 	if err != nil {
